@@ -105,13 +105,23 @@ class WSGIWrapper:
 
         response_body = self.app(environ, start_response)
 
-        if not response_started:
-            raise RuntimeError("WSGI app did not call start_response")
-
-        send({"type": "http.response.start", "status": status_code, "headers": headers})
+        # PEP 3333 allows start_response to be called as late as the
+        # first iteration of the returned iterable, and requires
+        # close() to be called however the iteration ends.
+        response_sent = False
         try:
             for output in response_body:
+                if not response_sent:
+                    if not response_started:
+                        raise RuntimeError("WSGI app did not call start_response")
+                    send({"type": "http.response.start", "status": status_code, "headers": headers})
+                    response_sent = True
                 send({"type": "http.response.body", "body": output, "more_body": True})
+
+            if not response_sent:
+                if not response_started:
+                    raise RuntimeError("WSGI app did not call start_response")
+                send({"type": "http.response.start", "status": status_code, "headers": headers})
         finally:
             if hasattr(response_body, "close"):
                 response_body.close()
